@@ -41,7 +41,13 @@ struct trie_node {
 	void *value;
 	struct trie_node **children;
 	uint32_t num_children;
+	/* one reference for holding a (not yet removed) value, one for
+	   each iterator positioned on the node */
 	uint32_t refcount;
+	/* the value was removed from the map, but it is kept (together
+	   with its key) until the last iterator positioned on the node
+	   has moved on; only then it gets announced as deleted */
+	uint32_t removed;
 	struct trie_node *parent;
 	struct qb_list_head *notifier_head;
 };
@@ -72,6 +78,7 @@ static int32_t
 trie_node_alive(struct trie_node *node)
 {
 	if (node->value == NULL ||
+	    node->removed ||
 	    node->refcount <= 0) {
 		return QB_FALSE;
 	}
@@ -191,12 +198,25 @@ trie_node_split(struct trie *t, struct trie_node *cur_node, int seg_cnt)
 			split_node->children[i]->parent = split_node;
 		}
 	}
+	if (cur_node->removed) {
+		/* nobody but iterators is interested in the node as it was,
+		   finish the pending removal before reshaping it */
+		trie_notify(cur_node, QB_MAP_NOTIFY_DELETED, cur_node->key,
+			    cur_node->value, NULL);
+		cur_node->key = NULL;
+		cur_node->value = NULL;
+		cur_node->removed = QB_FALSE;
+	}
 	split_node->value = cur_node->value;
 	split_node->key = cur_node->key;
-	split_node->refcount = cur_node->refcount;
+	/* the value takes its reference along, the references of iterators
+	   positioned on cur_node stay where those iterators are */
+	if (cur_node->value != NULL) {
+		split_node->refcount = 1;
+		cur_node->refcount--;
+	}
 	cur_node->value = NULL;
 	cur_node->key = NULL;
-	cur_node->refcount = 0;
 	/* move notifier list to split */
 	tmp = split_node->notifier_head;
 	split_node->notifier_head = cur_node->notifier_head;
@@ -351,6 +371,7 @@ trie_node_release(struct trie *t, struct trie_node *node)
 	int empty = QB_FALSE;
 
 	if (node->key == NULL &&
+	    node->refcount == 0 &&
 	    node->parent != NULL &&
 	    qb_list_empty(node->notifier_head)) {
 		struct trie_node *p = node->parent;
@@ -385,13 +406,13 @@ trie_node_release(struct trie *t, struct trie_node *node)
 static void
 trie_node_destroy(struct trie *t, struct trie_node *n)
 {
-	if (n->value == NULL) {
-		return;
-	}
-	trie_notify(n, QB_MAP_NOTIFY_DELETED, n->key, n->value, NULL);
+	if (n->value != NULL) {
+		trie_notify(n, QB_MAP_NOTIFY_DELETED, n->key, n->value, NULL);
 
-	n->key = NULL;
-	n->value = NULL;
+		n->key = NULL;
+		n->value = NULL;
+		n->removed = QB_FALSE;
+	}
 
 	trie_node_release(t, n);
 }
@@ -433,7 +454,7 @@ trie_node_ref(struct trie *t, struct trie_node *node)
 static void
 trie_node_deref(struct trie *t, struct trie_node *node)
 {
-	if (!trie_node_alive(node)) {
+	if (node->refcount == 0) {
 		return;
 	}
 	node->refcount--;
@@ -523,8 +544,20 @@ trie_put(struct qb_map *map, const char *key, const void *value)
 	struct trie *t = (struct trie *)map;
 	struct trie_node *n = trie_insert(t, key);
 	if (n) {
-		const char *old_value = n->value;
-		const char *old_key = n->key;
+		const char *old_value;
+		const char *old_key;
+
+		if (n->removed) {
+			/* the previous value is only waiting for iterators
+			   positioned on the node to move on, let it go now */
+			trie_notify(n, QB_MAP_NOTIFY_DELETED, n->key,
+				    n->value, NULL);
+			n->key = NULL;
+			n->value = NULL;
+			n->removed = QB_FALSE;
+		}
+		old_value = n->value;
+		old_key = n->key;
 
 		n->key = (char *)key;
 		n->value = (void *)value;
@@ -547,7 +580,10 @@ trie_rm(struct qb_map *map, const char *key)
 {
 	struct trie *t = (struct trie *)map;
 	struct trie_node *n = trie_lookup(t, key, QB_TRUE);
-	if (n) {
+	if (n && trie_node_alive(n)) {
+		/* iterators positioned on the node keep it (and the value)
+		   around, for everybody else it is gone right now */
+		n->removed = QB_TRUE;
 		trie_node_deref(t, n);
 		t->length--;
 		return QB_TRUE;
@@ -561,7 +597,7 @@ trie_get(struct qb_map *map, const char *key)
 {
 	struct trie *t = (struct trie *)map;
 	struct trie_node *n = trie_lookup(t, key, QB_TRUE);
-	if (n) {
+	if (n && !n->removed) {
 		return n->value;
 	}
 
@@ -752,7 +788,7 @@ trie_iter_next(qb_map_iter_t * i, void **value)
 		si->root = trie_lookup(t, si->prefix, QB_FALSE);
 		if (si->root == NULL) {
 			si->n = NULL;
-		} else if (si->root->value == NULL) {
+		} else if (!trie_node_alive(si->root)) {
 			si->n = trie_node_next(si->root, si->root, QB_FALSE);
 		} else {
 			si->n = si->root;
